@@ -21,7 +21,8 @@ Mirrors, for the settings sheet only,
 * `SurveyElement.xml_bindings` BINDING_CONVERSIONS on the `calculate` of `meta/instanceName`.
 
 Python dicts are insertion-ordered association lists (`aget`/`aset`).  Answered `unsupported`
-(deterministically, counted in the evidence): a header with non-ASCII characters (`str.lower`),
+(deterministically, counted in the evidence): a header with non-ASCII characters other than
+whitespace (`str.lower`),
 `jr` tokens in single-colon headers, `::`-grouped headers other than `attribute::<name>`, a plain
 `attribute` column, columns named after `Survey` slots that are not settings (`children`, `type`,
 `bind`, `flat`, … — the F22 crash class, owned by C17), `fields`, empty cells, and values that
@@ -131,7 +132,7 @@ def processHeader (useDC : Bool) (h : Str) : Str × List Str :=
 
 /-- headers the model answers for -/
 def headerSupported (useDC : Bool) (h : Str) : Bool :=
-  !h.isEmpty && h.all (fun c => c.toNat < 128) && h != S "__row" &&
+  !h.isEmpty && h.all (fun c => c.toNat < 128 || pyIsSpace c) && h != S "__row" &&
   (useDC || isInfix (S "::") h || !((splitOnChar ':' h).map strip).contains (S "jr"))
 
 /-! ## `dealias_and_group_headers` on the settings sheet -/
